@@ -1,14 +1,32 @@
 from core import Unit as U
 # C05 part (c): hashing for all message lengths and all write splits.  See contracts/hash_spec.h for the layering.
 ORACLE = ["sha256 compression function reached through hash_ctx->fn_sha256_compression (verif_compress: logging oracle, havocs s[0..7])"]
+SHA = ["secp256k1_sha256_write", "secp256k1_sha256_finalize"]
 UNITS = [
     U("C05.sha256_write", ["C05"], "harness/C05/hash_write.c", "h_write", assumed=ORACLE,
       functions=["secp256k1_sha256_write"], timeout=600, min_obl=50, unwind=130, replay=False,
       note="stream lemma: len fully symbolic (<= 2^48), bytes symbolic; compression abstracted by the logging oracle"),
     U("C05.sha256_write_contract", ["C05"], "harness/C05/hash_write.c", "h_write_c", assumed=ORACLE,
-      enforce=["secp256k1_sha256_write"], functions=["secp256k1_sha256_write"], timeout=600, min_obl=50, unwind=130, replay=False,
+      enforce=["secp256k1_sha256_write"], functions=["secp256k1_sha256_write"], solver="cadical", timeout=600, min_obl=50, unwind=130, replay=False,
       note="the stream lemma as a DFCC-enforced contract (hash_spec.h), arbitrary initial log state; consumed by the lemma units"),
     U("C05.sha256_write_split", ["C05"], "harness/C05/hash_write.c", "h_write2", replace=["secp256k1_sha256_write"],
-      functions=["secp256k1_sha256_write"], timeout=600, min_obl=50, unwind=130, replay=False,
+      functions=["secp256k1_sha256_write"], solver="cadical", timeout=600, min_obl=50, unwind=130, replay=False,
       note="two-write lemma over the enforced stream contract: write(a);write(b) has the stream postcondition of write(a||b), all la, lb, bytes"),
+    U("C05.sha256_transform_loop", ["C05"], "harness/C05/hash_transform.c", "h_transform", replace=["secp256k1_sha256_transform_impl"],
+      assumed=["secp256k1_sha256_transform_impl (one-block compression: frame s[0..7] + ghost call log)"], loops=True,
+      functions=["secp256k1_sha256_transform"], timeout=300, min_obl=20, unwind=10, replay=False,
+      closed_by="loop contract (hooks/C05_hash_transform_loop.diff): base, step, decreases",
+      note="n_blocks symbolic (<= 2^40); needs the loop-contract hook in src/hash_impl.h"),
+    U("C05.sha256_finalize", ["C05"], "harness/C05/hash_finalize.c", "h_finalize", assumed=ORACLE,
+      functions=["secp256k1_sha256_finalize", "secp256k1_sha256_write", "secp256k1_write_be32"], timeout=600, min_obl=50, unwind=130, replay=False,
+      note="padding lemma on the real finalize+write: bytes symbolic < 2^61; compression abstracted by the logging oracle"),
+    U("C05.hmac_initialize", ["C05"], "harness/C05/hash_hmac.c", "h_hmac_init", replace=SHA,
+      functions=["secp256k1_hmac_sha256_initialize", "secp256k1_sha256_initialize"], timeout=600, min_obl=50, unwind=66, replay=False,
+      closed_by="full unwinding of the two 64-iteration xor loops (literal bound sizeof(rkey))",
+      note="keylen symbolic (<= 2^40); SHA object replaced by the L3 stream contracts (justified by C05.sha256_write*/finalize)"),
+    U("C05.hmac_write", ["C05"], "harness/C05/hash_hmac.c", "h_hmac_write", replace=SHA,
+      functions=["secp256k1_hmac_sha256_write"], timeout=300, min_obl=20, unwind=66, replay=False, note="size symbolic"),
+    U("C05.hmac_finalize", ["C05"], "harness/C05/hash_hmac.c", "h_hmac_finalize", replace=SHA,
+      functions=["secp256k1_hmac_sha256_finalize"], timeout=300, min_obl=20, unwind=66, replay=False,
+      note="inner/outer byte counters symbolic"),
 ]
